@@ -310,6 +310,9 @@ func (p *path) addRule(
 			switch nxt.typ {
 			case tokenEqual:
 				for nxt := next(); nxt.typ != tokenVariableEnd; nxt = next() {
+					if nxt.typ == tokenVariableStart {
+						return fmt.Errorf("nested variable in template %q", tmpl)
+					}
 					vars = append(vars, nxt)
 				}
 
